@@ -448,6 +448,8 @@ class Executor(Exec):
         if name == "get":
             kt = ops.key_term(c.kty, args[0])
             dv = args[1] if len(args) > 1 else SNone()
+            if isinstance(dv, SClosure) and dv.kind == "emptylist" and isinstance(c.vty, tuple) and c.vty[0] in ("seq", "list"):
+                dv = ops.empty_seq(c.vty[1])             # d.get(k, []) on a dict of sequences
             if kt is None: return k(dv, st)
             return self.branch(c.dom[kt], st, lambda s: k(S.wrap(c.vty, c.val[kt]), s), lambda s: k(dv, s))
         if name == "setdefault" and len(args) == 2:
